@@ -1,7 +1,9 @@
 (* C14 - link names are unique per entity and consistent across packages: the theorems.
    Model: C14.Model (link_name mirrors cl/import.go funcName / varName, ssa/type.go FuncName,
    ssa/abi FullName / PathOf / NamedName / TypeArgs, go/ssa function names, routineName,
-   closureWrapDecl / closureWrapPtr). *)
+   closureWrapDecl / closureWrapPtr).  The boolean argument of link_name / name_of selects the
+   code: true = the code that exists (ssa.FuncName keeps the package of a foreign receiver type in
+   the name of a thunk / bound wrapper), false = the code before that fix. *)
 From Coq Require Import Ascii String.
 From LLGoV Require Import C07.Model C14.Model C14.Bal C14.Proofs.
 Local Open Scope N_scope.
@@ -14,20 +16,20 @@ Local Open Scope N_scope.
    cpkg) and goroutine thunks (Package.iRoutine counter, field n); both symbols are defined and
    used inside that one package.  ssa/type.go llvmNameOf / toNamed count too (name#index) but
    name LLVM struct types, not symbols. *)
-Theorem link_name_deterministic : forall e1 e2 : entity tys, e1 = e2 -> link_name e1 = link_name e2.
-Proof. intros e1 e2 ->. reflexivity. Qed.
+Theorem link_name_deterministic : forall (fixed : bool) (e1 e2 : entity tys),
+  e1 = e2 -> link_name fixed e1 = link_name fixed e2.
+Proof. intros fixed e1 e2 ->. reflexivity. Qed.
 Print Assumptions link_name_deterministic.
 
 (* String-level injectivity over entities whose type-argument lists are given as rendered text.
    Guard wf_core: package paths satisfy C07 wf_path (path characters, no dot in the last element,
    not below the patch prefix) and do not start with __llgo_stub or _llgo_; identifiers are ASCII
    Go identifiers not starting with _llgo_; the text between the brackets is bracket-balanced.
-   Conclusion: the entities are equal up to erase (the receiver package of a thunk / bound
-   wrapper, which the name does not contain - wrapper_recv_pkg_refuted), or they are a function
-   and a variable of one package under one identifier (excluded by the Go package scope). *)
+   Conclusion: the entities are equal, receiver package of a wrapper included, or they are a
+   function and a variable of one package under one identifier (excluded by the Go package scope). *)
 Theorem name_of_injective_string : forall a b : core (option str),
-  wf_core a = true -> wf_core b = true -> name_of a = name_of b ->
-  erase a = erase b \/ scope_clash a b.
+  wf_core a = true -> wf_core b = true -> name_of true a = name_of true b ->
+  a = b \/ scope_clash a b.
 Proof. exact name_of_injective. Qed.
 Print Assumptions name_of_injective_string.
 
@@ -40,9 +42,19 @@ Print Assumptions name_of_injective_string.
    unnamed receivers, init$guard and C callback wrappers are not in the grammar. *)
 Theorem link_name_injective_partial : forall e1 e2 : entity tys,
   wf_prog e1 = true -> wf_prog e2 = true ->
-  link_name e1 = link_name e2 -> same_entity (render_ent e1) (render_ent e2).
-Proof. exact link_name_injective_prog. Qed.
+  link_name true e1 = link_name true e2 -> same_entity true (render_ent e1) (render_ent e2).
+Proof. exact (link_name_injective_prog true). Qed.
 Print Assumptions link_name_injective_partial.
+
+(* The fix in one statement: the name of a thunk / bound wrapper determines the wrapper,
+   including the package of its receiver type *)
+Theorem wrapper_recv_pkg_determined :
+  forall cp1 k1 rp1 ptr1 t1 ta1 m1 cp2 k2 rp2 ptr2 t2 ta2 m2,
+  wf_prog_core (EWrap cp1 k1 rp1 ptr1 t1 ta1 m1) = true -> wf_prog_core (EWrap cp2 k2 rp2 ptr2 t2 ta2 m2) = true ->
+  core_name true (EWrap cp1 k1 rp1 ptr1 t1 ta1 m1) = core_name true (EWrap cp2 k2 rp2 ptr2 t2 ta2 m2) ->
+  cp1 = cp2 /\ k1 = k2 /\ rp1 = rp2 /\ ptr1 = ptr2 /\ t1 = t2 /\ targs_text ta1 = targs_text ta2 /\ m1 = m2.
+Proof. exact wrapper_determined. Qed.
+Print Assumptions wrapper_recv_pkg_determined.
 
 (* abi.TypeArgs renders bracket-balanced text (used to find the end of a receiver's arguments) *)
 Theorem type_args_balanced : forall ts : tys, nobr_tys ts = true -> ok_targs (targs_text ts) = true.
@@ -55,56 +67,67 @@ Print Assumptions type_args_balanced.
 Theorem mergeable_defs_equivalent_partial : forall a b : core tys,
   is_instance a = true -> is_instance b = true ->
   wf_prog_core a = true -> wf_prog_core b = true ->
-  core_name a = core_name b -> render a = render b.
-Proof. exact mergeable_prog. Qed.
+  core_name true a = core_name true b -> render a = render b.
+Proof. exact (mergeable_prog true). Qed.
 Print Assumptions mergeable_defs_equivalent_partial.
 
-(* F10: without the no-dot-in-the-last-path-element guard the statement is false:
-   func c of package x/a.b and method c of type b of package x/a are both x/a.b.c *)
-Theorem pkg_dot_refuted : exists e1 e2 : entity tys,
-  e1 <> e2 /\ link_name e1 = link_name e2 /\ link_name e1 = lit "x/a.b.c"%string
-  /\ e1 = ECore (EFunc (lit "x/a.b"%string) (lit "c"%string) [] TsNil)
-  /\ e2 = ECore (EMethod (lit "x/a"%string) false (lit "b"%string) TsNil (lit "c"%string) []).
-Proof.
-  exists w_dot_func, w_dot_meth. destruct pkg_dot_witness as (A & B & C & _).
-  repeat split; auto.
-Qed.
-Print Assumptions pkg_dot_refuted.
+(* Before the fix (fixed = false) the same holds only up to erase, the receiver package of a
+   wrapper ... *)
+Theorem link_name_injective_unfixed_partial : forall e1 e2 : entity tys,
+  wf_prog e1 = true -> wf_prog e2 = true ->
+  link_name false e1 = link_name false e2 -> same_entity false (render_ent e1) (render_ent e2).
+Proof. exact (link_name_injective_prog false). Qed.
+Print Assumptions link_name_injective_unfixed_partial.
 
-(* No guard on paths and identifiers repairs this one: the method value wrappers compiled into
-   package x for x/a.T.M and for x/b.T.M are both well formed and both called x.T.M$bound *)
+(* ... and no better: before the fix the method value wrappers compiled into package x for
+   x/a.T.M and for x/b.T.M are both well formed and both called x.T.M$bound (the compiled
+   program then calls a's method for b's value); with the fix they are two names *)
 Theorem wrapper_recv_pkg_refuted : exists e1 e2 : entity tys,
   e1 <> e2 /\ wf_prog e1 = true /\ wf_prog e2 = true
-  /\ link_name e1 = link_name e2 /\ link_name e1 = lit "x.T.M$bound"%string.
+  /\ link_name false e1 = link_name false e2 /\ link_name false e1 = lit "x.T.M$bound"%string
+  /\ link_name true e1 = lit "x.(x/a.T).M$bound"%string
+  /\ link_name true e2 = lit "x.(x/b.T).M$bound"%string.
 Proof.
-  exists (w_wrap p_xa), (w_wrap p_xb). destruct wrapper_witness as (A & B & C & D & E).
+  exists (w_wrap p_xa), (w_wrap p_xb). destruct wrapper_witness as (A & B & C & D & E & F & G & _).
   repeat split; auto.
 Qed.
 Print Assumptions wrapper_recv_pkg_refuted.
 
+(* F10: without the no-dot-in-the-last-path-element guard the statement is false:
+   func c of package x/a.b and method c of type b of package x/a are both x/a.b.c *)
+Theorem pkg_dot_refuted : exists e1 e2 : entity tys,
+  e1 <> e2 /\ link_name true e1 = link_name true e2 /\ link_name true e1 = lit "x/a.b.c"%string
+  /\ e1 = ECore (EFunc (lit "x/a.b"%string) (lit "c"%string) [] TsNil)
+  /\ e2 = ECore (EMethod (lit "x/a"%string) false (lit "b"%string) TsNil (lit "c"%string) []).
+Proof.
+  exists w_dot_func, w_dot_meth. destruct (pkg_dot_witness true) as (A & B & C & _).
+  repeat split; auto.
+Qed.
+Print Assumptions pkg_dot_refuted.
+
 (* why identifiers must not start with _llgo_: closure 1 of a function _llgo_routine and the
    first goroutine thunk of the package share x._llgo_routine$1 *)
 Theorem routine_closure_refuted : exists e1 e2 : entity tys,
-  e1 <> e2 /\ link_name e1 = link_name e2 /\ link_name e1 = lit "x._llgo_routine$1"%string.
+  e1 <> e2 /\ link_name true e1 = link_name true e2 /\ link_name true e1 = lit "x._llgo_routine$1"%string.
 Proof.
-  exists w_rt_func, w_rt_thunk. destruct routine_witness as (A & B & _). repeat split; auto.
+  exists w_rt_func, w_rt_thunk. destruct (routine_witness true) as (A & B & _). repeat split; auto.
 Qed.
 Print Assumptions routine_closure_refuted.
 
 (* why paths must not start with __llgo_stub: method M of type T of a package __llgo_stub and
    the closure stub of func M of a package T *)
 Theorem stub_prefix_refuted : exists e1 e2 : entity tys,
-  e1 <> e2 /\ link_name e1 = link_name e2 /\ link_name e1 = lit "__llgo_stub.T.M"%string.
+  e1 <> e2 /\ link_name true e1 = link_name true e2 /\ link_name true e1 = lit "__llgo_stub.T.M"%string.
 Proof.
-  exists w_stub_meth, w_stub_stub. destruct stub_witness as (A & B & _). repeat split; auto.
+  exists w_stub_meth, w_stub_stub. destruct (stub_witness true) as (A & B & _). repeat split; auto.
 Qed.
 Print Assumptions stub_prefix_refuted.
 
 (* exception by design (the overlay mechanism): PathOf strips the patch prefix, so the patch
    package and the patched package share their names *)
 Theorem patch_prefix_merges : forall f : str,
-  link_name (ECore (EFunc (s_patch ++ lit "os"%string) f [] TsNil))
-  = link_name (ECore (EFunc (lit "os"%string) f [] TsNil)).
+  link_name true (ECore (EFunc (s_patch ++ lit "os"%string) f [] TsNil))
+  = link_name true (ECore (EFunc (lit "os"%string) f [] TsNil)).
 Proof. intros f. reflexivity. Qed.
 Print Assumptions patch_prefix_merges.
 
@@ -116,11 +139,19 @@ Definition ex_meth : entity tys :=
 Example ex_meth_wf : wf_prog ex_meth = true.
 Proof. reflexivity. Qed.
 Example ex_meth_name :
-  link_name ex_meth = lit "github.com/u/p.(*G[int,map[string]*x/b.T]).Set$1$12[int,map[string]*x/b.T]"%string.
+  link_name true ex_meth = lit "github.com/u/p.(*G[int,map[string]*x/b.T]).Set$1$12[int,map[string]*x/b.T]"%string.
 Proof. reflexivity. Qed.
+Definition ex_wrap : core tys :=
+  EWrap (lit "x"%string) WThunk (lit "github.com/u/p"%string) true (lit "G"%string) ex_targs (lit "Set"%string).
+Example ex_wrap_wf : wf_prog_core ex_wrap = true.
+Proof. reflexivity. Qed.
+Example ex_wrap_name :
+  core_name true ex_wrap = lit "x.(*github.com/u/p.G[int,map[string]*x/b.T]).Set$thunk"%string
+  /\ core_name false ex_wrap = lit "x.(*G[int,map[string]*x/b.T]).Set$thunk"%string.
+Proof. split; reflexivity. Qed.
 Example ex_stub_wf :
   wf_prog (EStubDecl (EFunc (lit "x/a"%string) (lit "F"%string) [1] TsNil)) = true
-  /\ link_name (EStubDecl (EFunc (lit "x/a"%string) (lit "F"%string) [1] TsNil)) = lit "__llgo_stub.x/a.F$1"%string.
+  /\ link_name true (EStubDecl (EFunc (lit "x/a"%string) (lit "F"%string) [1] TsNil)) = lit "__llgo_stub.x/a.F$1"%string.
 Proof. split; reflexivity. Qed.
 Example ex_instance : is_instance (EFunc (lit "x/a"%string) (lit "Map"%string) [1] ex_targs) = true
   /\ linkage_of (ECore (EFunc (lit "x/a"%string) (lit "Map"%string) [1] ex_targs)) = LinkOnce.
